@@ -116,6 +116,15 @@ def body_corpus(case, rec):
     corpus = chem_gen.corpus()
     rsmi, src, style = corpus[case["rxn"] % len(corpus)]
     base, newh = P.explicit_h_variant(rsmi, case.get("hx") or [])
+    if case.get("h2"):
+        # a mapped bystander H2 on both sides (unchanged H-H bond): still balanced and fully mapped
+        import re as _re
+
+        top = max(int(x) for x in _re.findall(r":(\d+)\]", base))
+        h2 = f"[H:{top + 1}][H:{top + 2}]"
+        rb, pb = base.split(">>")
+        base = f"{rb}.{h2}>>{pb}.{h2}"
+        rec.label("bystander-H2")
     v = chem_gen.variant(base, case["spec"])
     Gr, Hr = ref_sides(v, "input")  # never raises Violation: the corpus is fully mapped
 
@@ -200,6 +209,7 @@ def strat_corpus(tier):
             rxn=st.integers(0, n - 1),
             spec=_spec(),
             hx=st.one_of(st.none(), st.lists(st.integers(0, 10**4), min_size=1, max_size=3)),
+            h2=st.sampled_from([False, False, False, True]),
         )
     )
 
